@@ -388,6 +388,9 @@ func e4GenUniverse(r *rand.Rand, tier string) *e4Scenario {
 		p := e4Project{Repo: r.IntN(nr)}
 		if r.IntN(3) != 0 {
 			p.Sub = fmt.Sprintf("sub%d", r.IntN(4))
+			if r.IntN(5) == 0 {
+				p.Sub = fmt.Sprintf("libs%d/sub%d", r.IntN(2), r.IntN(4)) // two directories below the repository root
+			}
 		}
 		p.Major = []string{"", "", "", "v2", "v3"}[r.IntN(5)]
 		if used[p.path(sc)] {
@@ -479,6 +482,56 @@ func c10Gen(r *rand.Rand, tier string) any {
 				v := pr.Versions[r.IntN(len(pr.Versions))].Version
 				if v != q.Version {
 					sc.Root = append(sc.Root, e4Req{Name: fmt.Sprintf("again%d", len(sc.Root)), Path: q.Path, Version: v})
+				}
+			}
+		}
+	}
+	// some requirements name a revision (a pseudo-version) instead of a tag: the project file
+	// is then whatever the repository holds at the project's directory at that revision
+	if r.IntN(4) == 0 {
+		w := &e4World{sc: sc, hit: map[string]int{}}
+		d := w.dialer()
+		pseudo := func(pth string) string {
+			for pi := range sc.Projects {
+				pr := &sc.Projects[pi]
+				if pr.path(sc) != pth {
+					continue
+				}
+				repo := d.repos[sc.Repos[pr.Repo].Addr]
+				var ids []string
+				for id, rev := range repo.revs {
+					if rev.projects[pr.Sub] != nil {
+						ids = append(ids, id)
+					}
+				}
+				sort.Strings(ids)
+				if len(ids) == 0 {
+					return ""
+				}
+				rev := repo.revs[ids[r.IntN(len(ids))]]
+				major := pr.Major
+				if major == "" {
+					major = "v0"
+				}
+				return module.PseudoVersion(major, "", rev.when, rev.id)
+			}
+			return ""
+		}
+		for i := range sc.Root {
+			if r.IntN(3) == 0 {
+				if v := pseudo(sc.Root[i].Path); v != "" {
+					sc.Root[i].Version = v
+				}
+			}
+		}
+		for pi := range sc.Projects {
+			for vi := range sc.Projects[pi].Versions {
+				for ri := range sc.Projects[pi].Versions[vi].Reqs {
+					if r.IntN(6) == 0 {
+						if v := pseudo(sc.Projects[pi].Versions[vi].Reqs[ri].Path); v != "" {
+							sc.Projects[pi].Versions[vi].Reqs[ri].Version = v
+						}
+					}
 				}
 			}
 		}
